@@ -143,7 +143,9 @@ where
     T: ConcatenationTree<'t>,
 {
     let mut pattern = String::new();
-    pattern.push('^');
+    // Tree wildcards are encoded using `.`, which must match any character that may occur in a
+    // path, including line feeds.
+    pattern.push_str("(?s)^");
     encode(Grouping::Capture, None, &mut pattern, tree);
     pattern.push('$');
     Regex::new(&pattern).map_err(|error| match error {
